@@ -1,16 +1,385 @@
-(* C01 -- federated execution equals monolithic execution.
-   The theorems of this property (exec_split, entity_join, req_ok_sound, plan_ok_sound; see
-   DESIGN.md) are stated over coq/lib/Exec.v and are added by the coordinator.  Until then this
-   file only records, as a checked example, the comparison the differential check uses:
-   json_eqb is tree equality with raw number tokens and is sensitive to member order (the check
-   reports an order-only difference under its own clause, field_order). *)
-From Gv Require Import lib.Bytes lib.Json.
-From Coq Require Import List NArith.
-Import ListNotations.
+(* C01 property theorems: the algebra of execution that every correct federation plan relies on,
+   for ALL schemas, universes, documents and variables (fuel explicit).  Statements only; every
+   proof is [exact lemma]; the lemmas live in C01/Proofs*.v.  Non-vacuity: C01/Examples.v.
+
+   Vocabulary (definitions in C01/Proofs*.v):
+   - [no_oof errs]            no XOutOfFuel among the errors
+   - [split_merge ra rb]      members and errors concatenate; None (null propagation) in either makes
+                              the result None; a violation in the first stops execution
+   - [keys_disjoint la lb]    boolean on flatten results: no common response key
+   - [shift_errs pre errs]    prefix every XErr path with [pre]
+   - [repr_of e ks]           {"__typename": type of e, k: value of the FSc leaf k of e, ...}
+   - [key_consistent decls U] boolean: for every entity and declared key exactly one entity matches
+   - [sels_noent] / [frags_noent]  no field named _entities in the selections / fragments
+   - [sel_reqs e fl]          names required by the FReq fields of [e] selected at top level of [fl]
+   - [reqs_covered e fl kr]   those names are among the representation fields [kr]
+   - [two_step] / [mono_hop]  the two-request composition and the monolithic execution (ProofsTwoStep.v) *)
+From Coq Require Import PeanoNat Lia.
+From Gv Require Import lib.Bytes lib.Json lib.Gql lib.Exec
+     C01.ProofsBase C01.ProofsFuel C01.ProofsSplit C01.ProofsSim C01.ProofsJoin C01.ProofsOverlap C01.ProofsTwoStep.
 Open Scope N_scope.
 
-Example json_eqb_member_order_sensitive :
-  json_eqb (JObj [([97], JNum [49]); ([98], JNull)]) (JObj [([98], JNull); ([97], JNum [49])]) = false
-  /\ json_eqb (JObj [([97], JNum [49]); ([98], JNull)]) (JObj [([97], JNum [49]); ([98], JNull)]) = true
-  /\ json_eqb (JNum [49]) (JNum [49; 46; 48]) = false.
-Proof. repeat split; reflexivity. Qed.
+(* ---- E1: a result without XOutOfFuel does not change when more fuel is supplied ---- *)
+Theorem fuel_monotone :
+  forall (sc : schema) (U : universe) (frags : list fragment) (vars : list (bytes * json))
+  (md : mode) (f f' : nat) (objty : name) (ov : oval) (sels : list selection)
+  (path : list pel),
+  (f <= f')%nat ->
+  no_oof (snd (exec_sels sc U frags vars md f objty ov sels path)) = true ->
+  exec_sels sc U frags vars md f' objty ov sels path =
+  exec_sels sc U frags vars md f objty ov sels path.
+Proof. exact ProofsFuel.exec_sels_fuel_mono. Qed.
+Print Assumptions fuel_monotone.
+
+Theorem fuel_monotone_field :
+  forall (sc : schema) (U : universe) (frags : list fragment) (vars : list (bytes * json))
+  (md : mode) (f f' : nat) (objty : name) (ov : oval) (key : name)
+  (s : selection) (subs : list selection) (path : list pel),
+  (f <= f')%nat ->
+  no_oof (c_errs (exec_field sc U frags vars md f objty ov key s subs path)) = true ->
+  exec_field sc U frags vars md f' objty ov key s subs path =
+  exec_field sc U frags vars md f objty ov key s subs path.
+Proof. exact ProofsFuel.exec_field_fuel_mono. Qed.
+Print Assumptions fuel_monotone_field.
+
+Theorem fuel_monotone_complete :
+  forall (sc : schema) (U : universe) (frags : list fragment) (vars : list (bytes * json))
+  (md : mode) (f f' : nat) (t : ty) (ov : oval) (fname : name) (cargs : list (bytes * json))
+  (fv : fval) (subs : list selection) (path : list pel),
+  (f <= f')%nat ->
+  no_oof (c_errs (complete sc U frags vars md f t ov fname cargs fv subs path)) = true ->
+  complete sc U frags vars md f' t ov fname cargs fv subs path =
+  complete sc U frags vars md f t ov fname cargs fv subs path.
+Proof. exact ProofsFuel.complete_fuel_mono. Qed.
+Print Assumptions fuel_monotone_complete.
+
+Theorem fuel_monotone_flatten :
+  forall (sc : schema) (frags : list fragment) (vars : list (bytes * json)) 
+  (f f' : nat) (objty : name) (sels : list selection),
+  (f <= f')%nat ->
+  flat_no_oof (flatten sc frags vars f objty sels) = true ->
+  flatten sc frags vars f' objty sels = flatten sc frags vars f objty sels.
+Proof. exact ProofsFuel.flatten_mono. Qed.
+Print Assumptions fuel_monotone_flatten.
+
+Theorem fuel_monotone_execute :
+  forall (f f' : nat) (sc : schema) (U : universe) (md : mode) (doc : document)
+  (opname : option name) (supplied : json),
+  (f <= f')%nat ->
+  no_oof (rs_errs (execute f sc U md doc opname supplied)) = true ->
+  execute f' sc U md doc opname supplied = execute f sc U md doc opname supplied.
+Proof. exact ProofsFuel.execute_fuel_mono. Qed.
+Print Assumptions fuel_monotone_execute.
+
+
+(* ---- E2: selection sets over one object can be executed independently and merged ---- *)
+Theorem exec_split :
+  forall (sc : schema) (U : universe) (frags : list fragment) (vars : list (bytes * json))
+  (md : mode) (fa fb f : nat) (objty : name) (ov : oval) (A B : list selection)
+  (path : list pel) (la lb : list selection),
+  flatten sc frags vars fa objty A = FlatOk la ->
+  flatten sc frags vars fb objty B = FlatOk lb ->
+  keys_disjoint la lb = true ->
+  no_oof (snd (exec_sels sc U frags vars md fa objty ov A path)) = true ->
+  (fst (exec_sels sc U frags vars md fa objty ov A path) <> None ->
+  no_oof (snd (exec_sels sc U frags vars md fb objty ov B path)) = true) ->
+  (fa + fb <= f)%nat ->
+  exec_sels sc U frags vars md f objty ov (A ++ B) path =
+  split_merge (exec_sels sc U frags vars md fa objty ov A path)
+  (exec_sels sc U frags vars md fb objty ov B path).
+Proof. exact ProofsSplit.exec_split. Qed.
+Print Assumptions exec_split.
+
+Theorem exec_split_exact :
+  forall (sc : schema) (U : universe) (frags : list fragment) (vars : list (bytes * json))
+  (md : mode) (f : nat) (objty : name) (ov : oval) (A B : list selection)
+  (path : list pel) (la lb : list selection),
+  flatten sc frags vars f objty A = FlatOk la ->
+  flatten sc frags vars f objty B = FlatOk lb ->
+  flat_no_oof (flatten sc frags vars f objty (A ++ B)) = true ->
+  keys_disjoint la lb = true ->
+  exec_sels sc U frags vars md f objty ov (A ++ B) path =
+  split_merge (exec_sels sc U frags vars md f objty ov A path)
+  (exec_sels sc U frags vars md f objty ov B path).
+Proof. exact ProofsSplit.exec_split_eq. Qed.
+Print Assumptions exec_split_exact.
+
+Theorem exec_split_overlap_groups :
+  forall (sc : schema) (U : universe) (frags : list fragment) (vars : list (bytes * json))
+  (md : mode) (f : nat) (objty : name) (ov : oval) (A B : list selection)
+  (path : list pel) (la lb : list selection),
+  flatten sc frags vars f objty A = FlatOk la ->
+  flatten sc frags vars f objty B = FlatOk lb ->
+  flat_no_oof (flatten sc frags vars f objty (A ++ B)) = true ->
+  exec_sels sc U frags vars md f objty ov (A ++ B) path =
+  split_merge
+  (sels_go (exec_field sc U frags vars md (Init.Nat.pred f) objty ov) path
+  (map (ext_group lb) (groups la)))
+  (exec_flat sc U frags vars md f objty ov (new_keys la lb) path).
+Proof. exact ProofsOverlap.exec_split_overlap_groups. Qed.
+Print Assumptions exec_split_overlap_groups.
+
+Theorem exec_split_overlap_partial :
+  forall (sc : schema) (U : universe) (frags : list fragment) (vars : list (bytes * json))
+  (md : mode) (f : nat) (objty : name) (ov : oval) (A B : list selection)
+  (path : list pel) (la lb : list selection),
+  flatten sc frags vars f objty A = FlatOk la ->
+  flatten sc frags vars f objty B = FlatOk lb ->
+  flat_no_oof (flatten sc frags vars f objty (A ++ B)) = true ->
+  overlap_nosubs la lb = true ->
+  exec_sels sc U frags vars md f objty ov (A ++ B) path =
+  split_merge (exec_sels sc U frags vars md f objty ov A path)
+  (exec_flat sc U frags vars md f objty ov (new_keys la lb) path).
+Proof. exact ProofsOverlap.exec_split_overlap_partial. Qed.
+Print Assumptions exec_split_overlap_partial.
+
+
+(* ---- relocation of the response path; subgraph mode == monolithic mode; the object under _entities ---- *)
+Theorem exec_path_shift :
+  forall (sc : schema) (U : universe) (frags : list fragment) (vars : list (bytes * json))
+  (md : mode) (pre : list pel) (f : nat) (objty : name) (ov : oval)
+  (sels : list selection) (p : list pel),
+  exec_sels sc U frags vars md f objty ov sels (pre ++ p) =
+  shift_sres pre (exec_sels sc U frags vars md f objty ov sels p).
+Proof. exact ProofsSim.exec_sels_path_shift. Qed.
+Print Assumptions exec_path_shift.
+
+Theorem exec_sub_eq_mono :
+  forall (sc : schema) (U : universe) (frags : list fragment) (vars : list (bytes * json))
+  (f : nat) (objty : name) (e : entity) (sels : list selection)
+  (p : list pel),
+  frags_noent frags = true ->
+  sels_noent sels = true ->
+  exec_sels sc U frags vars Sub f objty {| ov_ent := e; ov_repr := None |} sels p =
+  exec_sels sc U frags vars Mono f objty {| ov_ent := e; ov_repr := None |} sels p.
+Proof. exact ProofsSim.exec_sels_sub_mono. Qed.
+Print Assumptions exec_sub_eq_mono.
+
+Theorem exec_under_entities_eq_mono :
+  forall (sc : schema) (U : universe) (frags : list fragment) (vars : list (bytes * json))
+  (f : nat) (objty : name) (e : entity) (r : json) (sels : list selection)
+  (pre : list pel) (fl : list selection),
+  frags_noent frags = true ->
+  sels_noent sels = true ->
+  flatten sc frags vars f objty sels = FlatOk fl ->
+  (forall s : selection,
+  In s fl ->
+  forall x : name,
+  In x (fval_reqs (ent_fval e (sel_fname s))) ->
+  req_read Sub (Some r) e x = req_read Mono None e x) ->
+  exec_sels sc U frags vars Sub f objty {| ov_ent := e; ov_repr := Some r |} sels pre =
+  shift_sres pre
+  (exec_sels sc U frags vars Mono f objty {| ov_ent := e; ov_repr := None |} sels []).
+Proof. exact ProofsSim.exec_sels_repr_sim. Qed.
+Print Assumptions exec_under_entities_eq_mono.
+
+
+(* ---- E3: entity join ---- *)
+Theorem key_consistent_identifies :
+  forall (decls : list (name * list name)) (U : universe) (e : entity) (ks : list name),
+  key_consistent decls U = true ->
+  In e U -> In (en_type e, ks) decls -> find_by_repr U (repr_of e ks) = Some e.
+Proof. exact ProofsJoin.key_consistent_find. Qed.
+Print Assumptions key_consistent_identifies.
+
+Theorem key_extended_identifies :
+  forall (U : universe) (e : entity) (ks rs : list name),
+  find_by_repr U (repr_of e ks) = Some e -> find_by_repr U (repr_of e (ks ++ rs)) = Some e.
+Proof. exact ProofsJoin.find_by_repr_extend. Qed.
+Print Assumptions key_extended_identifies.
+
+Theorem entity_join_field :
+  forall (sc : schema) (U : universe) (frags : list fragment) (vars : list (bytes * json))
+  (fM f : nat) (T : name) (sel fl : list selection) (ovq : oval)
+  (key : name) (a : option name) (args : list argument) (dirs : list directive)
+  (ss : list selection) (path : list pel) (rs : list json) (es : list entity),
+  kind_of sc T <> None ->
+  frags_noent frags = true ->
+  sels_noent sel = true ->
+  reprs_of vars args = rs ->
+  flatten sc frags vars fM T sel = FlatOk fl ->
+  Forall2
+  (fun (r : json) (e : entity) =>
+  find_by_repr U r = Some e /\
+  en_type e = T /\
+  (forall s : selection,
+  In s fl ->
+  forall x : name,
+  In x (fval_reqs (ent_fval e (sel_fname s))) ->
+  req_read Sub (Some r) e x = req_read Mono None e x) /\
+  no_oof (snd (mono_at sc U frags vars fM T sel e)) = true) rs es ->
+  (fM + 2 <= f)%nat ->
+  exec_field sc U frags vars Sub f (s_query sc) ovq key (SField a s_entities args dirs ss)
+  [SInline (Some T) [] sel] path =
+  {|
+  c_json := JArr (fst (join_loop (mono_at sc U frags vars fM T sel) path 0 es));
+  c_errs := snd (join_loop (mono_at sc U frags vars fM T sel) path 0 es);
+  c_viol := false
+  |}.
+Proof. exact ProofsJoin.entity_join_field_list. Qed.
+Print Assumptions entity_join_field.
+
+Theorem entity_join :
+  forall (sc : schema) (U : universe) (frags : list fragment)
+  (decls : list (name * list name)) (fM f : nat) (vds : list vardef)
+  (T : name) (sel : list selection) (supplied : json) (root : entity)
+  (fl : list selection) (ks : list name) (e : entity),
+  let vars := effective_vars (entities_op vds T sel) (supplied_members supplied) in
+  let mono := exec_sels sc U frags vars Mono fM T {| ov_ent := e; ov_repr := None |} sel [] in
+  key_consistent decls U = true ->
+  In (T, ks) decls ->
+  In e U ->
+  en_type e = T ->
+  find_entity U (s_query sc) [] = Some root ->
+  kind_of sc T <> None ->
+  frags_noent frags = true ->
+  sels_noent sel = true ->
+  assoc s_representations vars = Some (JArr [repr_of e ks]) ->
+  flatten sc frags vars fM T sel = FlatOk fl ->
+  sel_reqs e fl = [] ->
+  no_oof (snd mono) = true ->
+  (fM + 3 <= f)%nat ->
+  execute f sc U Sub (entities_doc vds T sel frags) None supplied =
+  {|
+  rs_data := JObj [(s_entities, JArr [ojson (fst mono)])];
+  rs_errs := shift_errs [PN s_entities; PI 0] (snd mono)
+  |}.
+Proof. exact ProofsJoin.entity_join_execute. Qed.
+Print Assumptions entity_join.
+
+Theorem entity_join_requires :
+  forall (sc : schema) (U : universe) (frags : list fragment)
+  (decls : list (name * list name)) (fM f : nat) (vds : list vardef)
+  (T : name) (sel : list selection) (supplied : json) (root : entity)
+  (fl : list selection) (ks rq : list name) (e : entity),
+  let vars := effective_vars (entities_op vds T sel) (supplied_members supplied) in
+  let mono := exec_sels sc U frags vars Mono fM T {| ov_ent := e; ov_repr := None |} sel [] in
+  key_consistent decls U = true ->
+  In (T, ks) decls ->
+  In e U ->
+  en_type e = T ->
+  find_entity U (s_query sc) [] = Some root ->
+  kind_of sc T <> None ->
+  frags_noent frags = true ->
+  sels_noent sel = true ->
+  assoc s_representations vars = Some (JArr [repr_of e (ks ++ rq)]) ->
+  flatten sc frags vars fM T sel = FlatOk fl ->
+  reqs_covered e fl (ks ++ rq) = true ->
+  no_oof (snd mono) = true ->
+  (fM + 3 <= f)%nat ->
+  execute f sc U Sub (entities_doc vds T sel frags) None supplied =
+  {|
+  rs_data := JObj [(s_entities, JArr [ojson (fst mono)])];
+  rs_errs := shift_errs [PN s_entities; PI 0] (snd mono)
+  |}.
+Proof. exact ProofsJoin.entity_join_requires_execute. Qed.
+Print Assumptions entity_join_requires.
+
+Theorem entity_join_list :
+  forall (sc : schema) (U : universe) (frags : list fragment)
+  (decls : list (name * list name)) (fM f : nat) (vds : list vardef)
+  (T : name) (sel : list selection) (supplied : json) (root : entity)
+  (fl : list selection) (ks : list name) (es : list entity),
+  let vars := effective_vars (entities_op vds T sel) (supplied_members supplied) in
+  let mono := mono_at sc U frags vars fM T sel in
+  key_consistent decls U = true ->
+  In (T, ks) decls ->
+  find_entity U (s_query sc) [] = Some root ->
+  kind_of sc T <> None ->
+  frags_noent frags = true ->
+  sels_noent sel = true ->
+  assoc s_representations vars = Some (JArr (map (fun e : entity => repr_of e ks) es)) ->
+  flatten sc frags vars fM T sel = FlatOk fl ->
+  Forall
+  (fun e : entity =>
+  In e U /\ en_type e = T /\ sel_reqs e fl = [] /\ no_oof (snd (mono e)) = true) es ->
+  (fM + 3 <= f)%nat ->
+  execute f sc U Sub (entities_doc vds T sel frags) None supplied =
+  {|
+  rs_data := JObj [(s_entities, JArr (map (fun e : entity => ojson (fst (mono e))) es))];
+  rs_errs := snd (join_loop mono [PN s_entities] 0 es)
+  |}.
+Proof. exact ProofsJoin.entity_join_list_execute. Qed.
+Print Assumptions entity_join_list.
+
+Theorem entity_join_list_requires :
+  forall (sc : schema) (U : universe) (frags : list fragment)
+  (decls : list (name * list name)) (fM f : nat) (vds : list vardef)
+  (T : name) (sel : list selection) (supplied : json) (root : entity)
+  (fl : list selection) (ks rq : list name) (es : list entity),
+  let vars := effective_vars (entities_op vds T sel) (supplied_members supplied) in
+  let mono := mono_at sc U frags vars fM T sel in
+  key_consistent decls U = true ->
+  In (T, ks) decls ->
+  find_entity U (s_query sc) [] = Some root ->
+  kind_of sc T <> None ->
+  frags_noent frags = true ->
+  sels_noent sel = true ->
+  assoc s_representations vars = Some (JArr (map (fun e : entity => repr_of e (ks ++ rq)) es)) ->
+  flatten sc frags vars fM T sel = FlatOk fl ->
+  Forall
+  (fun e : entity =>
+  In e U /\
+  en_type e = T /\ reqs_covered e fl (ks ++ rq) = true /\ no_oof (snd (mono e)) = true) es ->
+  (fM + 3 <= f)%nat ->
+  execute f sc U Sub (entities_doc vds T sel frags) None supplied =
+  {|
+  rs_data := JObj [(s_entities, JArr (map (fun e : entity => ojson (fst (mono e))) es))];
+  rs_errs := snd (join_loop mono [PN s_entities] 0 es)
+  |}.
+Proof. exact ProofsJoin.entity_join_list_requires_execute. Qed.
+Print Assumptions entity_join_list_requires.
+
+
+(* ---- E4: one entity hop, federated == monolithic ---- *)
+Theorem federated_two_step :
+  forall (U : universe) (sc : schema) (frags : list fragment) (vars : list (bytes * json))
+  (sc1 : schema) (frags1 : list fragment) (vars1 : list (bytes * json))
+  (sc2 : schema) (frags2 : list fragment) (vds2 : list vardef) (sup2 : list (bytes * json))
+  (root2 : entity) (P : name) (eP : entity) (af : option name) (f : name)
+  (args : list argument) (dirs : list directive) (path : list pel)
+  (nn : bool) (n : name) (td : type_def) (fd : field_def) (T : name)
+  (ks : list name) (selA selB flA flB : list selection) (g0 g2 : nat),
+  bytes_eqb f s_typename = false ->
+  find_type P (s_types sc) = Some td ->
+  find_field f (td_fields td) = Some fd ->
+  fd_type fd = (if nn then TNonNull (TNamed n) else TNamed n) ->
+  is_leaf_kind sc n = Some false ->
+  frags_noent frags1 = true ->
+  sels_noent [SField af f args dirs (selA ++ key_sels ks)] = true ->
+  (forall fuel : nat,
+  exec_sels sc1 U frags1 vars1 Mono fuel P {| ov_ent := eP; ov_repr := None |}
+  [SField af f args dirs (selA ++ key_sels ks)] path =
+  exec_sels sc U frags vars Mono fuel P {| ov_ent := eP; ov_repr := None |}
+  [SField af f args dirs (selA ++ key_sels ks)] path) ->
+  kind_of sc2 T <> None ->
+  frags_noent frags2 = true ->
+  sels_noent selB = true ->
+  find_entity U (s_query sc2) [] = Some root2 ->
+  flatten sc frags vars g0 T selA = FlatOk flA ->
+  flatten sc frags vars g0 T selB = FlatOk flB ->
+  keys_disjoint flA flB = true ->
+  keys_unaliased ks flA = true ->
+  (forall e : entity,
+  obj_target U (hop_cargs sc vars args fd) (hop_fv {| ov_ent := eP; ov_repr := None |} f) =
+  Some (Some e) ->
+  obj_type_ok sc n e = true ->
+  en_type e = T /\
+  find_by_repr U (repr_of e ks) = Some e /\
+  forallb (key_field_ok sc e) ks = true /\
+  (exists flB2 : list selection,
+  flatten sc2 frags2 (vars2_of vds2 sup2 T selB (repr_of e ks)) g2 T selB = FlatOk flB2 /\
+  reqs_covered e flB2 ks = true) /\
+  (forall fuel : nat,
+  exec_sels sc2 U frags2 (vars2_of vds2 sup2 T selB (repr_of e ks)) Mono fuel T
+  {| ov_ent := e; ov_repr := None |} selB [] =
+  exec_sels sc U frags vars Mono fuel T {| ov_ent := e; ov_repr := None |} selB [])) ->
+  forall fM f1 f2 : nat,
+  no_oof (snd (mono_hop U sc frags vars P eP af f args dirs path selA selB fM)) = true ->
+  (two_step_fuel ks g0 fM <= f1)%nat ->
+  (two_step_fuel ks g0 fM + g2 <= f2)%nat ->
+  two_step U sc1 frags1 vars1 sc2 frags2 vds2 sup2 P eP af f args dirs path nn T ks selA selB
+  flA f1 f2 = mono_hop U sc frags vars P eP af f args dirs path selA selB fM.
+Proof. exact ProofsTwoStep.federated_two_step_main. Qed.
+Print Assumptions federated_two_step.
+
